@@ -146,6 +146,16 @@ impl Storage {
                     stored_genesis_hash, genesis_hash
                 );
             }
+            // `set_scripts` filters the genesis block after the scripts are committed: if the
+            // process was killed in between, it is done now (the block filters are requested from
+            // block 1). A script with the block number 0 has got no other block yet.
+            if self
+                .get_filter_scripts()
+                .iter()
+                .any(|ss| ss.block_number == 0)
+            {
+                self.filter_block(block);
+            }
         } else {
             let mut batch = self.batch();
             let block_hash = block.calc_header_hash();
